@@ -23,7 +23,7 @@ import (
 	"verif/internal/stdpkg"
 )
 
-var paths = []string{"a/d", "b/d", "c/d", "fmt", "x/fmt", "math/rand", "crypto/rand", "q/e", "x.y/D", "os", "r/e", "local/pkg"}
+var paths = []string{"a/d", "b/d", "c/d", "fmt", "x/fmt", "math/rand", "crypto/rand", "q/e", "x.y/D", "os", "r/e", "local/pkg", "C"}
 
 type Action struct {
 	Kind string `json:"kind"` // add | render_file | render_stmt | render_group | hint_name | hint_alias | anon | prefix
@@ -127,7 +127,7 @@ func genCase(maxSteps int) func(t *rapid.T) Case {
 		}
 		steps := rapid.IntRange(2, maxSteps).Draw(t, "steps")
 		for i := 0; i < steps; i++ {
-			a := Action{Kind: rapid.SampledFrom([]string{"add", "render_file", "render_file", "render_stmt", "render_stmt", "render_group", "hint_name", "hint_alias", "hint_alias", "anon", "prefix"}).Draw(t, "action")}
+			a := Action{Kind: rapid.SampledFrom([]string{"add", "render_file", "render_file", "render_stmt", "render_stmt", "render_group", "hint_name", "hint_alias", "hint_alias", "anon", "prefix", "preamble"}).Draw(t, "action")}
 			switch a.Kind {
 			case "add", "render_stmt", "render_group":
 				a.I = rapid.IntRange(0, 40).Draw(t, "idx")
@@ -144,6 +144,8 @@ func genCase(maxSteps int) func(t *rapid.T) Case {
 				a.Path = rapid.SampledFrom(paths).Draw(t, "apath")
 			case "prefix":
 				a.Name = rapid.SampledFrom([]string{"", "pkg", "p2"}).Draw(t, "prefix")
+			case "preamble":
+				a.Name = rapid.SampledFrom([]string{"#include <stdio.h>", "", " ", "#include <a.h>\n#include <b.h>", "// raw"}).Draw(t, "preamble")
 			}
 			a.Reps = rapid.IntRange(2, 3).Draw(t, "reps")
 			c.Actions = append(c.Actions, a)
@@ -227,6 +229,7 @@ func check(c Case) error {
 	// (registration happens while rendering, the failure is only found when formatting), no output shows them
 	failedRef := map[string]bool{}
 	failedReal := map[string]string{}
+	preamble := false // a cgo preamble was supplied: import "C" is then declared whether or not C is referenced
 	lastStmt := map[int]string{}
 	lastGroup := map[int]string{}
 	lastFileBody := ""
@@ -254,7 +257,9 @@ func check(c Case) error {
 				continue
 			}
 			name[p] = q
-			if h, ok := failedReal[p]; ok {
+			if p == "C" {
+				realAt[p] = "C"
+			} else if h, ok := failedReal[p]; ok {
 				// registered earlier, by a fragment render that failed: the hints of that moment count
 				realAt[p] = h
 			} else if h, ok := hintName[p]; ok {
@@ -301,20 +306,23 @@ func check(c Case) error {
 					break
 				}
 			}
+		case "preamble":
+			f.CgoPreamble(a.Name)
+			preamble = true
 		case "hint_name":
-			if a.Path == local {
-				continue
+			if a.Path == local || a.Path == "C" {
+				continue // (hints for the pseudo-package are ignored by jennifer; the model does not follow them)
 			}
 			f.ImportName(a.Path, a.Name)
 			hintName[a.Path] = a.Name
 		case "hint_alias":
-			if a.Path == local {
+			if a.Path == local || a.Path == "C" {
 				continue
 			}
 			f.ImportAlias(a.Path, a.Name)
 			delete(hintName, a.Path)
 		case "anon":
-			if _, sighted := name[a.Path]; sighted || failedRef[a.Path] || a.Path == local {
+			if _, sighted := name[a.Path]; sighted || failedRef[a.Path] || a.Path == local || a.Path == "C" {
 				continue // Anon on an already referenced path is outside the property
 			}
 			f.Anon(a.Path)
@@ -487,6 +495,9 @@ func check(c Case) error {
 					continue
 				}
 				if failedRef[p] {
+					continue
+				}
+				if p == "C" && preamble {
 					continue
 				}
 				return fmt.Errorf("step %d: import %q (%s) was never referenced in any output and is not anonymous\n%s", step, p, imp.Name, src)
